@@ -292,7 +292,7 @@ class Parser(object):
             p = self.power()
             if p[0] == "pow":
                 raise Undefined("precedence_unary_minus_before_power")
-            return ("neg", p) if op == "-" else p
+            return ("neg", p) if op == "-" else ("pos", p)
         if self.is_kw("NOT"):
             self.next()
             p = self.primary()
@@ -691,6 +691,8 @@ class Machine(object):
         if t == "neg":
             x = need_num(self.ev(n[1], ln), ln)
             return Num(-x.v, x.e)
+        if t == "pos":
+            return need_num(self.ev(n[1], ln), ln)
         if t == "not":
             x = need_num(self.ev(n[1], ln), ln)
             i = exact_int(x, "logical_operand", -2 ** 31, 2 ** 31)
@@ -1405,7 +1407,7 @@ def static_inexact(ast):
         return not (n in INT_NAMES or n in LOOP_NAMES or n in CNT_NAMES)
     if t == "arr":
         return ast[1].lower() not in IARR_NAMES
-    if t in ("par", "neg"):
+    if t in ("par", "neg", "pos"):
         return static_inexact(ast[1])
     if t == "bin":
         if ast[1] == "MOD":
